@@ -1,4 +1,4 @@
-//go:build verif
+//go:build verif && !verif_fallback
 
 package client
 
